@@ -12,7 +12,7 @@ Not decided: recurrence weights, boundary handling, tie-breaks, float arithmetic
 import re
 
 from ..build import AnalysisBroken
-from ..util import site, guards, switch_table, const_value, stores_to_field
+from ..util import site, guards, switch_table, const_value, stores_to_field, local_defs
 
 MEETUPS = ("aln_seqseq_meetup", "aln_seqprofile_meetup", "aln_profileprofile_meetup")
 STATES = ("a", "ga", "gb")
@@ -333,14 +333,118 @@ def r07c(ck, prog):
         ck.violation("R07c", "R07c/do_align/sides", site(prog, D), "gap penalties are rescaled for node(s) %s only" % sorted(seen), prog.config)
 
 
+COORDS = ("startb", "endb", "starta", "enda", "len_a", "len_b")
+
+
+def _border_pred(F, n, depth=0):
+    """canonical form of a test on the rectangle coordinates: (predicate text, polarity) with predicate one of
+    '<field>!=0' / '<f1>!=<f2>'; None if the expression is not a test on coordinates only; locals with one
+    definition are looked through"""
+    n = n.strip(casts=True)
+    if n.k == "UnaryOperator" and n.d["op"] == "!":
+        r = _border_pred(F, n.kids[0], depth)
+        return None if r is None else (r[0], not r[1])
+    a = _coord_atom(F, n, depth)
+    if a is not None and a != "0":
+        return ("%s!=0" % a, True)
+    if n.k == "DeclRefExpr" and n.d.get("dk") == "Var" and not n.d.get("g") and depth < 3:
+        defs = local_defs(F, n.d["did"])
+        if len(defs) == 1 and defs[0][0] is not None:
+            return _border_pred(F, defs[0][0], depth + 1)
+        return None
+    if n.k == "BinaryOperator" and n.d["op"] in ("==", "!="):
+        x, y = _coord_atom(F, n.kids[0], depth), _coord_atom(F, n.kids[1], depth)
+        if x is None or y is None:
+            return None
+        x, y = sorted((x, y), key=lambda t: (t == "0", t))
+        if x == "0":
+            return None
+        return ("%s!=%s" % (x, y), n.d["op"] == "!=")
+    return None
+
+
+def _coord_atom(F, n, depth=0):
+    n = n.strip(casts=True)
+    if n.cv == 0 and n.k == "IntegerLiteral":
+        return "0"
+    if n.k == "MemberExpr" and n.d.get("rec") == "aln_mem" and n.d["field"] in COORDS:
+        return n.d["field"]
+    if n.k == "DeclRefExpr" and n.d.get("dk") == "Var" and not n.d.get("g") and depth < 3:
+        defs = local_defs(F, n.d["did"])
+        if len(defs) == 1 and defs[0][0] is not None:
+            return _coord_atom(F, defs[0][0], depth + 1)
+    return None
+
+
+def _penalty_family(stmt):
+    """which gap-penalty family a branch uses: 'interior' (gpo/gpe, profile columns 27/28), 'terminal' (tgpe, column 29)"""
+    fam = set()
+    for x in stmt.walk():
+        if x.k == "DeclRefExpr" and x.d.get("name") in ("gpo", "gpe"):
+            fam.add("interior")
+        elif x.k == "DeclRefExpr" and x.d.get("name") == "tgpe":
+            fam.add("terminal")
+        elif x.k == "MemberExpr" and x.d.get("field") in ("gpo", "gpe"):
+            fam.add("interior")
+        elif x.k == "MemberExpr" and x.d.get("field") == "tgpe":
+            fam.add("terminal")
+        elif x.k == "ArraySubscriptExpr" and x.kids[1].cv in (27, 28):
+            fam.add("interior")
+        elif x.k == "ArraySubscriptExpr" and x.kids[1].cv == 29:
+            fam.add("terminal")
+    return fam
+
+
+def r07d(ck, prog):
+    """the three kernels handle the borders of a sub-rectangle alike: the ordered list of tests on the rectangle
+    coordinates (startb != 0, endb != len_b) that select the terminal-gap variant of an update is the same in the
+    three forward passes and the same in the three backward passes; and in each, the branch taken when the border is
+    interior uses the interior penalties, the other the terminal ones"""
+    for suf in ("foward", "backward"):
+        lists = {}
+        for kk in KINDS_:
+            F = prog.fn(kk + suf)
+            conds = []
+            for i in F.body.find("IfStmt"):
+                r = _border_pred(F, i.child("cond"))
+                if r is None:
+                    continue
+                pred, pol = r
+                conds.append(pred)
+                th, el = i.child("then"), i.child("else")
+                inner, outer = (th, el) if pol else (el, th)
+                fi = _penalty_family(inner) if inner is not None else set()
+                fo = _penalty_family(outer) if outer is not None else set()
+                ck.inst("R07d", site(prog, i, pred), "%s: when %s uses %s penalties, otherwise %s" % (kk + suf, pred, sorted(fi), sorted(fo)), prog.config)
+                if "terminal" in fi or "interior" in fo:
+                    ck.violation("R07d", "R07d/%s/polarity/%d" % (kk + suf, len(conds)), site(prog, i, pred),
+                                 "%s: the branch taken when %s (the border lies inside the sequence) uses %s penalties and the other "
+                                 "branch %s: terminal and interior gap prices are swapped at this border" % (kk + suf, pred, sorted(fi), sorted(fo)), prog.config)
+            lists[kk + suf] = conds
+        if not any(lists.values()):
+            raise AnalysisBroken("R07d: no border test found in the %s passes" % suf)
+        vals = list(lists.values())
+        ref = max(vals, key=lambda l: vals.count(l))
+        for name, l in lists.items():
+            if l != ref:
+                ck.violation("R07d", "R07d/%s/border-tests" % name, site(prog, prog.fn(name)),
+                             "%s selects the terminal-gap variants by %s, its siblings by %s: one kernel prices a gap at the border of a "
+                             "sub-rectangle differently from the others" % (name, l, ref), prog.config)
+
+
+KINDS_ = ("aln_seqseq_", "aln_seqprofile_", "aln_profileprofile_")
+
+
 def run(ck, progs):
     describe(ck)
+    ck.rule("R07d", "the three forward kernels test the sub-rectangle borders (startb / endb != len_b) in the same order, and so do the three backward kernels")
     ck.rule("R07c", "group weighting: each profile's gap penalties are scaled by the size of the other group, for both sides, on the branch where that side is a profile")
     from . import c02
     for cfg, prog in progs.items():
         ck.attempt(r07a, ck, prog)
         ck.attempt(r07b, ck, prog)
         ck.attempt(r07c, ck, prog)
+        ck.attempt(r07d, ck, prog)
         before = len(ck.instances)
         ck.attempt(c02.r02g, ck, prog)
         for i in ck.instances[before:]:
